@@ -289,7 +289,17 @@ func (o *kOpts) files(w *os.File) []uintptr {
 // watchdog runs f and reports a hang when it does not finish within d of real time.
 func watchdog(d time.Duration, f func()) bool {
 	done := make(chan struct{})
-	go func() { defer close(done); f() }()
+	var pv any
+	go func() {
+		defer close(done)
+		defer func() { pv = recover() }() // re-raised below in the caller's goroutine, where the worker can report it
+		f()
+	}()
+	defer func() {
+		if pv != nil {
+			panic(pv)
+		}
+	}()
 	tick := time.NewTicker(500 * time.Millisecond)
 	defer tick.Stop()
 	deadline := time.After(d)
